@@ -180,6 +180,10 @@ def fixed_cases():
     yield {'tree': t, 'faults': [[0, 'ValueError', 'before']]}                       # D11
     yield {'tree': ['list', [['tcmt', 't', ['fn2', 'x', []]], ['int', 1]]], 'faults': [[0, 'KeyError', 'after']]}
     yield {'tree': ['fn', 'top', []], 'badret': [0, 'int']}
+    # a failing printer on a value whose repr has several lines, nested: the repr goes in unchanged
+    for exc in ('ValueError', 'KeyError'):
+        yield {'tree': ['list', [['dict', [['k', ['fn', 'two\nlines', []]]]], ['fn2', 'three\n  indented\nlines', [['int', 1]]], ['int', 0]]], 'faults': [[0, exc, 'before'], [1, exc, 'after']]}
+        yield {'tree': ['fn', 'outer', [['list', [['fn', 'inner\nrepr', []], ['int', 1]]]]], 'faults': [[1, exc, 'before']]}
     for exc in ('ValueError', 'TypeError', 'Injected'):
         for phase in ('before', 'after'):
             # a node whose printer is registered through a predicate (a second, later registered predicate accepts it too)
@@ -209,7 +213,7 @@ def strategy(tier):
     from hypothesis import strategies as st
     leaf = st.one_of(st.integers(0, 9).map(lambda i: ['int', i]), st.sampled_from(['a b', 'x']).map(lambda s: ['str', s]),
                      st.integers(0, 5).map(lambda i: ['ref', i]))
-    tags = st.sampled_from(['a', 'b', 'c', 'long tag with words'])
+    tags = st.sampled_from(['a', 'b', 'c', 'long tag with words', 'two\nlines', 'three\n  indented\nlines'])
 
     def ext(ch):
         wrapped = st.one_of(ch, ch, st.tuples(st.sampled_from(['c1', 'c two words', 'x\ny']), ch).map(lambda p: ['cmt', p[0], p[1]]),
